@@ -246,8 +246,6 @@ def _check(run):
     rejects = tracecheck.validate(run, 'DefaultsTrace', 'DefaultsTrace.cfg', traces, chunk=6000)
     by_trace: dict[int, list] = {}
     for (ti, li, clause) in rejects:
-        if clause == 'binding':
-            raise MachineryError(f'inconsistent record (same object, different value): {traces[ti][li]}')
         by_trace.setdefault(ti, []).append((li, clause))
     run.note('rejected_distinct_traces', len(by_trace))
 
